@@ -1,5 +1,5 @@
 //@unit node_restore_channels
-//@props C18 C11 C15 C05
+//@props C18 C11 C15 C05 C06 C13 C14
 // Contract on the channel part of a restart: Node::new_from_persistence (vls-core/src/node.rs).  For every persisted
 // channel entry the channel registered again carries keys derived from the SAME id as at creation (its initial id
 // `id0`, the key of the persisted entry), the persisted enforcement state and setup verbatim, and both of its ids.
@@ -153,21 +153,29 @@ impl VxSecp {
 }
 impl VxProvider { #[verifier::external_body] pub fn new(s: VxSlot) -> VxProvider { unimplemented!() } }
 impl ChainMonitorBase {
+    // the monitor base is a function of the funding outpoint, the persisted monitor state and the channel id
     #[verifier::external_body]
-    pub fn new_from_persistence(o: OutPoint, st: VxTrackerState, id: &ChannelId) -> ChainMonitorBase { unimplemented!() }
+    pub fn new_from_persistence(o: OutPoint, st: VxTrackerState, id: &ChannelId) -> (r: ChainMonitorBase)
+        ensures r == monitor_base_of(o, st, *id)
+    { unimplemented!() }
     #[verifier::external_body]
     pub fn new(o: OutPoint, height: u32, id: &ChannelId) -> ChainMonitorBase { unimplemented!() }
     #[verifier::external_body]
     pub fn add_funding_outpoint(&self, o: &OutPoint) { unimplemented!() }
     #[verifier::external_body]
-    pub fn as_monitor(&self, p: VxProvider) -> VxMonitor { unimplemented!() }
+    pub fn as_monitor(&self, p: VxProvider) -> (r: VxMonitor) ensures monitor_base(r) == *self { unimplemented!() }
 }
 impl VxTracker {
-    #[verifier::external_body] pub fn set_allow_deep_reorgs(&mut self, b: bool) { unimplemented!() }
+    #[verifier::external_body] pub fn set_allow_deep_reorgs(&mut self, b: bool)
+        ensures final(self).trusted_oracle_pubkeys == old(self).trusted_oracle_pubkeys
+    { unimplemented!() }
 }
 impl VxTrackerGuard {
     #[verifier::external_body] pub fn height(&self) -> u32 { unimplemented!() }
-    #[verifier::external_body] pub fn restore_listener(&mut self, o: OutPoint, m: VxMonitor, s: VxTrackerSlot) { unimplemented!() }
+    // (`listener_restored` is an uninterpreted call marker: established only by this call with these arguments)
+    #[verifier::external_body] pub fn restore_listener(&mut self, o: OutPoint, m: VxMonitor, s: VxTrackerSlot)
+        ensures listener_restored(o, monitor_base(m), s)
+    { unimplemented!() }
     // tracker.add_listener(monitor, OrderedSet::from_iter(vec![txid]))
     #[verifier::external_body] pub fn vx_add_listener(&mut self, m: VxMonitor, txid: Txid) { unimplemented!() }
 }
@@ -177,7 +185,8 @@ impl NodeServices {
     pub fn vx_get_tracker(&self, node_id: PublicKey, f: VxValidatorFactory) -> Result<(VxTracker, VxListenerEntries), ()> { unimplemented!() }
     #[verifier::external_body] pub fn vx_persister(&self) -> VxPersist { unimplemented!() }
     #[verifier::external_body] pub fn vx_validator_factory(&self) -> VxValidatorFactory { unimplemented!() }
-    #[verifier::external_body] pub fn vx_trusted_oracle_pubkeys(&self) -> Vec<PublicKey> { unimplemented!() }
+    pub uninterp spec fn oracles_spec(&self) -> Seq<PublicKey>;
+    #[verifier::external_body] pub fn vx_trusted_oracle_pubkeys(&self) -> (r: Vec<PublicKey>) ensures r@ == self.oracles_spec() { unimplemented!() }
 }
 impl VxPersist {
     // Persist::get_node_channels: (initial channel id, entry) pairs as stored
@@ -187,13 +196,22 @@ impl VxPersist {
 #[verifier::external_body]
 pub fn vx_listeners(e: VxListenerEntries) -> VxListeners { unimplemented!() }
 impl VxListeners {
-    #[verifier::external_body] pub fn remove(&mut self, o: &OutPoint) -> Option<(VxTrackerState, VxTrackerSlot)> { unimplemented!() }
+    #[verifier::external_body] pub fn remove(&mut self, o: &OutPoint) -> (r: Option<(VxTrackerState, VxTrackerSlot)>)
+        ensures r == listener_entry(*old(self), *o)
+    { unimplemented!() }
     #[verifier::external_body] pub fn is_empty(&self) -> bool { unimplemented!() }
 }
 impl Channel {
     // Channel::restore_payments: re-registers in-flight payments with the node state (C06); reads the channel only
-    #[verifier::external_body] pub fn restore_payments(&self) { unimplemented!() }
+    // (`payments_restored` is an uninterpreted call marker)
+    #[verifier::external_body] pub fn restore_payments(&self) ensures payments_restored(*self) { unimplemented!() }
 }
+pub uninterp spec fn payments_restored(c: Channel) -> bool;
+pub uninterp spec fn monitor_base_of(o: OutPoint, st: VxTrackerState, id: ChannelId) -> ChainMonitorBase;
+pub uninterp spec fn monitor_base(m: VxMonitor) -> ChainMonitorBase;
+pub uninterp spec fn listener_restored(o: OutPoint, b: ChainMonitorBase, s: VxTrackerSlot) -> bool;
+// the tracker listener entry persisted (with the node) under a funding outpoint
+pub uninterp spec fn listener_entry(l: VxListeners, o: OutPoint) -> Option<(VxTrackerState, VxTrackerSlot)>;
 
 impl ChannelStub {
 //@fn vls-core/src/channel.rs :: impl ChannelStub :: channel_keys_with_channel_value props=C18
@@ -203,6 +221,7 @@ impl ChannelStub {
 
 impl VxNode {
     pub uninterp spec fn keys_manager(&self) -> MyKeysManager;
+    pub uninterp spec fn tracker_oracles(&self) -> Seq<PublicKey>;      // trusted oracle keys of the node's chain tracker
     #[verifier::external_body]
     pub fn vx_keys_manager(&self) -> (r: &MyKeysManager) ensures *r == self.keys_manager() { unimplemented!() }
     #[verifier::external_body]
@@ -231,7 +250,7 @@ impl VxNode {
     // Arc::new(Node::new_full(..)) (new_full is under contract in unit node_restore): the node holds the given keys manager
     #[verifier::external_body]
     pub fn vx_new_full(c: NodeConfig, s: NodeServices, st: NodeState, km: MyKeysManager, id: PublicKey, t: VxTracker) -> (r: VxNode)
-        ensures r.keys_manager() == km
+        ensures r.keys_manager() == km, r.tracker_oracles() == t.trusted_oracle_pubkeys@
     { unimplemented!() }
     #[verifier::external_body]
     pub fn channel_setup_to_channel_transaction_parameters(setup: &ChannelSetup, k: &ChannelPublicKeys) -> ChannelTransactionParameters { unimplemented!() }
@@ -249,7 +268,11 @@ impl VxNode {
         }
     }
 
-//@fn vls-core/src/node.rs :: impl Node :: new_from_persistence props=C18,C11,C15
+//@fn vls-core/src/node.rs :: impl Node :: new_from_persistence props=C18,C11,C15,C06,C13,C14
+//@sub /(?s)listeners\.remove\(&funding_outpoint\)\.unwrap_or_else\(\|\| \{.*?\}\)/ => listeners.remove(&funding_outpoint).vx_expect()
+    ensures
+        // C13: the restored tracker checks attestations against the oracles configured now
+        r.tracker_oracles() == services.oracles_spec(),                                                //[C13.restore.oracles-from-config]
 //@sub /node_config\.allow_deep_reorgs/ => node_config.vx_allow_deep_reorgs()
 //@sub /(?s)for \(channel_id0, channel_entry\) in\s*persister\.get_node_channels\(&node_id\)\.vx_expect\(\)\s*\{/ => let vx_entries = persister.get_node_channels(&node_id).vx_expect(); for vx_entry in it: vx_entries { let (channel_id0, channel_entry) = vx_entry; let ghost vx_id0 = channel_id0; let ghost vx_e = channel_entry;
 //@sub /monitor: monitor_base\.clone\(\),/ => monitor: monitor_base.clone(), persisted: Ghost(vx_e.enforcement_state),
@@ -258,9 +281,23 @@ impl VxNode {
                         // C18/C15: the stub registered again is the one created under id0, with the keys derived from id0
                         assert(channels@.contains_key(vx_id0) && channels@[vx_id0]@ == slot@);                                  //[C15.restore.stub-registered-under-id0]
                         assert(Self::restored_slot(node.keys_manager(), vx_id0, vx_e, slot@));                  //[C18.restore.stub-keys-from-id0]
+                        assert(vx_e.id.is_some() ==> channels@.contains_key(vx_e.id->Some_0) && channels@[vx_e.id->Some_0]@ == slot@); //[C15.restore.stub-registered-under-permanent-id]
                     }
+//@proof before /let \(tracker_state, tracker_slot\) =/
+                    let ghost vx_l0 = listeners;
 //@proof blockend /let channel_transaction_parameters =/
                     proof {
+                        // C06: the channel's in-flight payments were registered again with the node's ledger
+                        assert(payments_restored(slot@->Ready_0));                                              //[C06.restore.payments-reregistered]
+                        // C11/C14: the channel's monitor is rebuilt from the listener entry persisted under its funding outpoint
+                        // and registered again with the tracker for that outpoint
+                        let ghost vx_fo = vx_e.channel_setup->Some_0.funding_outpoint;
+                        let ghost vx_mid = match vx_e.id { Some(i) => i, None => vx_id0 };
+                        assert(listener_entry(vx_l0, vx_fo).is_some() && ({
+                            let ls = listener_entry(vx_l0, vx_fo)->Some_0;
+                            slot@->Ready_0.monitor == monitor_base_of(vx_fo, ls.0, vx_mid)
+                            && listener_restored(vx_fo, monitor_base_of(vx_fo, ls.0, vx_mid), ls.1)
+                        }));                                                                                    //[C11.restore.monitor-from-persisted-listener] [C14.restore.monitor-from-persisted-listener]
                         assert(channels@.contains_key(vx_id0) && channels@[vx_id0]@ == slot@);                                  //[C15.restore.channel-registered-under-id0]
                         assert(vx_e.id.is_some() ==> channels@.contains_key(vx_e.id->Some_0) && channels@[vx_e.id->Some_0]@ == slot@); //[C15.restore.channel-registered-under-permanent-id]
                         // C18: same keys as at creation (derived from id0, not from the permanent id);
@@ -280,6 +317,11 @@ impl VxNode {
             && (km_native_or_ldk(self.keys_manager()) ==>
                 ldk_secrets(r->Ok_0.1->Some_0->Stub_0.keys) == km_secrets(self.keys_manager(), channel_id)),             //[C18.create.stub-keys-from-id]
 //@sub /Arc::downgrade\(arc_self\)/ => arc_self.vx_downgrade()
+//@proof before /^\s*Ok\(\(channel_id\.clone\(\), Some\(ChannelSlot::Stub\(stub\)\)\)\)\s*$/
+        proof {
+            // C15/C11: the new stub is in the channel map under its id when the lock is released
+            assert(channels@.contains_key(channel_id) && channels@[channel_id]@ == ChannelSlot::Stub(stub));         //[C15.create.stub-registered]
+        }
 //@end
 
 //@fn vls-core/src/node.rs :: impl Node :: setup_channel props=C18,C15,C05 optclosures
@@ -297,6 +339,16 @@ impl VxNode {
         r.is_ok() && self.channels().contains_key(channel_id0) && self.channels()[channel_id0]@ is Ready ==>
             r->Ok_0 == self.channels()[channel_id0]@->Ready_0,                                                     //[C18.setup.ready-channel-untouched]
         r.is_ok() ==> self.channels().contains_key(channel_id0),
+//@proof before /let chan_arc = /
+        let ghost vx_id0 = channel_id0;
+//@proof before /^\s*Ok\(chan\)\s*$/
+        proof {
+            // C15: the ready channel replaces the stub under the node-assigned id AND is reachable under the permanent id
+            // (state of the channel map when the lock is released)
+            assert(channels@.contains_key(vx_id0) && channels@[vx_id0]@ == ChannelSlot::Ready(chan));               //[C15.setup.registered-under-id0]
+            assert(opt_channel_id.is_some() ==> channels@.contains_key(opt_channel_id->Some_0)
+                && channels@[opt_channel_id->Some_0]@ == ChannelSlot::Ready(chan));                                  //[C15.setup.registered-under-permanent-id]
+        }
 //@sub /let slot = arcobj\.lock\(\)\.vx_expect\(\);/ => let slot = arcobj.vx_get();
 //@sub /match &\*slot \{/ => match &slot {
 //@sub /if c\.setup != setup \{/ => if !vx_setup_eq(&c.setup, &setup) {
